@@ -22,7 +22,8 @@ import (
 
 type named string
 
-var fieldNames = []string{"a", "b", "c", "d", "name", "items", "x", "node", "0", "1", "id"}
+// "$" is the reorder marker inside array deltas; as an object field it is a name like any other
+var fieldNames = []string{"a", "b", "c", "d", "name", "items", "x", "node", "0", "1", "id", "$", "", "$$", "length"}
 
 type gen struct {
 	r       *rand.Rand
